@@ -117,13 +117,13 @@ func WConfig(prop, tier string) *Config {
 		}
 	case "C13":
 		ops := []string{"swap_in_p1_usdc_atom_L", "swap_in_p2_usdc_elys_L", "fee_tx_uusdc", "fee_tx_uatom", "fee_tx_uelys", "perp_open_long_t1", "perp_close_full_t1", "gap_1d", "ext_incentive_lp1", "ext_incentive_now_lp1", "join_p1_all_t1", "exit_p1_all_t1", "exit_p1_10pct_lp1", "join_p2_all_lp2", "bond_lp1_L", "unbond_lp2_half",
-			"llp_open_t1_x3", "llp_close_full_t1", "mc_claim_lp1", "mc_claim_lp2", "mc_claim_t1", "empty"}
+			"llp_open_t1_x3", "llp_close_full_t1", "mc_claim_lp1", "mc_claim_lp2", "mc_claim_t1", "empty", "nofeed", "join_p2_big_t1", "join_p2_big_t1_nofeed"}
 		cfg.Oracles = []*Oracle{OracleC13()}
 		if thorough {
-			cfg.Phases = []Phase{{Name: "full-depth3", Roots: []string{"R0", "R1", "R4"}, Ops: ops, Depth: 3, Dev: 3}}
+			cfg.Phases = []Phase{{Name: "full-depth3", Roots: []string{"R0", "R1", "R4", "R9"}, Ops: ops, Depth: 3, Dev: 3}}
 			cfg.NodeHook = C13Drain(2) // drain in all 24 claim orders below every node of depth <= 2
 		} else {
-			cfg.Phases = []Phase{{Name: "full-depth2", Roots: []string{"R0", "R1", "R4"}, Ops: ops, Depth: 2, Dev: 2}}
+			cfg.Phases = []Phase{{Name: "full-depth2", Roots: []string{"R0", "R1", "R4", "R9"}, Ops: ops, Depth: 2, Dev: 2}}
 			cfg.NodeHook = C13Drain(1)
 		}
 	case "C15":
